@@ -189,6 +189,8 @@ def walk_local(fn, into_nested=False):
     while stack:
         n = stack.pop()
         yield n
+        if not into_nested and isinstance(n, (ast.FunctionDef, ast.AsyncFunctionDef, ast.Lambda, ast.ClassDef)):
+            continue
         for c in reversed(list(ast.iter_child_nodes(n))):
             if not into_nested and isinstance(c, (ast.FunctionDef, ast.AsyncFunctionDef, ast.Lambda, ast.ClassDef)):
                 # the def statement itself is visible, its body is not
